@@ -26,7 +26,11 @@ type c18ForeignCase struct {
 	Buf     int    `json:"buf"`
 }
 
-func c18ForeignOne(c *fw.Ctx, cs c18ForeignCase) {
+func c18ForeignOne(c *fw.Ctx, cs c18ForeignCase) { c18ForeignOneP(c, cs, "C18") }
+
+// c18ForeignOneP: the same case reported under another property (C03: what reads
+// return equals what the peer sent, through every read API).
+func c18ForeignOneP(c *fw.Ctx, cs c18ForeignCase, prop string) {
 	c.Eval()
 	c.AddTraces(1)
 	desc := fmt.Sprintf("%+v", cs)
@@ -83,7 +87,7 @@ func c18ForeignOne(c *fw.Ctx, cs c18ForeignCase) {
 			}
 		}
 	}); p != "" {
-		c.Violate("C18/panic", desc+": "+p, cs)
+		c.Violate(prop+"/panic", desc+": "+p, cs)
 		return
 	}
 	c.OutcomeStr(fmt.Sprintf("foreign|%v|%s|%v|%v|%d|%d|%v", cs.BClient, cs.Comp, cs.BFinal, cs.Frag, cs.Buf, len(got), rerr == io.EOF))
@@ -92,11 +96,11 @@ func c18ForeignOne(c *fw.Ctx, cs c18ForeignCase) {
 		for k < len(got) && k < len(want) && got[k] == want[k] {
 			k++
 		}
-		c.Violate("C18/stream-differs/foreign-sender", fmt.Sprintf("%s: NetConn delivered %d bytes, the peer sent %d; first difference at offset %d; err=%v", desc, len(got), len(want), k, rerr), cs)
+		c.Violate(prop+"/stream-differs/foreign-sender", fmt.Sprintf("%s: NetConn delivered %d bytes, the peer sent %d; first difference at offset %d; err=%v", desc, len(got), len(want), k, rerr), cs)
 		return
 	}
 	if rerr != io.EOF {
-		c.Violate("C18/normal-close-not-eof/foreign-sender", fmt.Sprintf("%s: after all bytes and a Close frame with status 1000 the read returned %v, want io.EOF", desc, rerr), cs)
+		c.Violate(prop+"/normal-close-not-eof/foreign-sender", fmt.Sprintf("%s: after all bytes and a Close frame with status 1000 the read returned %v, want io.EOF", desc, rerr), cs)
 	}
 }
 
@@ -120,6 +124,27 @@ func c18ForeignCases() []c18ForeignCase {
 }
 
 func init() {
+	fw.Register(fw.Part{
+		Prop: "C03", Name: "netconn",
+		Units: func(tier string) []fw.Unit {
+			return []fw.Unit{{ID: "cases", Run: func(c *fw.Ctx) {
+				cases := c18ForeignCases()
+				for _, cs := range cases {
+					c18ForeignOneP(c, cs, "C03")
+				}
+				c.AddStates(int64(len(cases)))
+				c.Bound("netconn_foreign_sender_cases", len(cases))
+			}}}
+		},
+		Replay: func(c *fw.Ctx, data json.RawMessage) {
+			var cs c18ForeignCase
+			if json.Unmarshal(data, &cs) != nil {
+				c.EngineError("bad replay data")
+				return
+			}
+			c18ForeignOneP(c, cs, "C03")
+		},
+	})
 	fw.Register(fw.Part{
 		Prop: "C18", Name: "foreign",
 		Units: func(tier string) []fw.Unit {
